@@ -77,6 +77,14 @@ def Agg.plusEqWith (t : Agg) (other : Agg → Agg) : Option Agg := do
 def Agg.plusEq (t a : Agg) : Option Agg := t.plusEqWith (fun _ => a)
 def Agg.plusEqSelf (t : Agg) : Option Agg := t.plusEqWith id
 
+/-- `variance(ddof)`: `if (count_ <= 1) return 0.0; return nvar_ / double(count_ - ddof);`
+    (`count_ - ddof` is `size_t` arithmetic; ddof is 0 or 1 in tlx) -/
+def Agg.variance (a : Agg) (ddof : Nat) : Option Rat :=
+  if a.count ≤ 1 then some 0 else qdiv a.nvar ((a.count - ddof : Nat) : Rat)
+
+/-- `span()`: `max_ - min_` -/
+def Agg.span (a : Agg) : Rat := a.max - a.min
+
 /-- one Aggregate fed with all values -/
 def aggOf (L : Lim) (xs : List Rat) : Option Agg := xs.foldlM Agg.add (Agg.empty L)
 
